@@ -22,6 +22,7 @@ RULE = (
     "members(unite(a,b)) == members(a) | members(b) on the object universe, eq => equal hash, substitution "
     "identity / completeness / commutes with unite. Non-trivial = triple with a union operand or an "
     "unhashable literal (distinct by recipe)."
+    ' Flatness also covers union members wrapped in Annotated and the MultiValuedValue constructor route.'
 )
 ASSUMPTIONS = [
     "equality of Values is pyanalyze's own __eq__ (the property is stated up to that equality)",
